@@ -60,7 +60,15 @@ pub struct Engine {
     cls_text: String,
     session_text: String,
     explorations: u64,
+    rep_cache: Option<(usize, Vec<u8>)>,
+    rep_cache_path: u64,
+    /// queries answered by the current solver process (z3 4.8.12 grows by about 5 MB/s in a
+    /// long push/pop session: the process is replaced every RESPAWN_AFTER queries)
+    since_spawn: u64,
+    pub respawns: u64,
 }
+
+const RESPAWN_AFTER: u64 = 120_000;
 
 thread_local! {
     pub static ENGINE: RefCell<Option<Engine>> = RefCell::new(None);
@@ -105,6 +113,10 @@ impl Engine {
             cls_text: String::new(),
             session_text: String::new(),
             explorations: 0,
+            rep_cache: None,
+            rep_cache_path: u64::MAX,
+            since_spawn: 0,
+            respawns: 0,
         };
         e.send("(set-option :print-success false)\n(set-logic QF_BV)\n");
         e
@@ -137,6 +149,7 @@ impl Engine {
         self.send("(check-sat)\n");
         let l = self.read_line();
         self.stats.queries += 1;
+        self.since_spawn += 1;
         self.stats.solver_s += t0.elapsed().as_secs_f64();
         match l.trim() {
             "sat" => true,
@@ -193,8 +206,33 @@ impl Engine {
 
     /// Open a session: `n` fresh byte variables, constrained to the UTF-8 layout
     /// `widths` (char widths, sum == n).  Must be called at solver level 0.
+    fn respawn(&mut self) {
+        let solver = std::env::var("SYMX_Z3").unwrap_or_else(|_| "z3".to_string());
+        let _ = self.stdin.write_all(b"(exit)\n");
+        let _ = self.child.kill();
+        let _ = self.child.wait();
+        let mut child = Command::new(solver)
+            .arg("-in")
+            .stdin(Stdio::piped())
+            .stdout(Stdio::piped())
+            .stderr(Stdio::null())
+            .spawn()
+            .expect("spawn z3");
+        self.stdin = child.stdin.take().unwrap();
+        self.stdout = BufReader::new(child.stdout.take().unwrap());
+        self.child = child;
+        self.defined_cls.clear();
+        self.cls_text.clear();
+        self.since_spawn = 0;
+        self.respawns += 1;
+        self.send("(set-option :print-success false)\n(set-logic QF_BV)\n");
+    }
+
     fn open(&mut self, widths: &[usize], classes: &[Cls], extra: &[String]) {
         assert!(!self.active);
+        if self.since_spawn > RESPAWN_AFTER {
+            self.respawn();
+        }
         for c in classes {
             self.define_cls(c);
         }
@@ -214,6 +252,7 @@ impl Engine {
         }
         self.send(&s);
         self.session_text = s.replace("(push)\n", "");
+        self.rep_cache = None;
         self.explorations += 1;
         self.trail.clear();
         self.pos = 0;
@@ -435,6 +474,71 @@ pub fn min_value(term: &str) -> u8 {
             }
         }
         lo as u8
+    })
+}
+
+/// Lexicographically smallest assignment of the given bytes under the current path condition
+/// (deterministic; nothing is recorded on the trail).  Cached until the next *branch*
+/// decision (forced decisions do not change the feasible set); within a path constraints only
+/// grow, so a previous minimum that is still feasible is still the minimum.
+pub fn min_model(terms: &[Result<u8, String>]) -> Vec<u8> {
+    ENGINE.with(|e| {
+        let mut g = e.borrow_mut();
+        let eng = g.as_mut().expect("symbolic operation outside an engine session");
+        let upto = eng.pos.min(eng.trail.len());
+        let key = eng.trail[..upto].iter().filter(|x| matches!(x.kind, Kind::Branch { .. })).count();
+        let same_path = eng.rep_cache_path == eng.stats.paths;
+        let prev: Option<Vec<u8>> = match &eng.rep_cache {
+            Some((k, v)) if v.len() == terms.len() => {
+                if *k == key && same_path {
+                    return v.clone();
+                }
+                Some(v.clone())
+            }
+            _ => None,
+        };
+        eng.rep_cache_path = eng.stats.paths;
+        let mut out = Vec::new();
+        let mut pushed = 0;
+        for (i, t) in terms.iter().enumerate() {
+            match t {
+                Ok(v) => out.push(*v),
+                Err(term) => {
+                    let mut lo: u16 = match &prev {
+                        Some(p) => p[i] as u16,
+                        None => 0,
+                    };
+                    // a previous minimum (of this path: nothing smaller can have become feasible;
+                    // of another path: checked) is kept if it is feasible and nothing below it is
+                    let mut keep = prev.is_some() && eng.feasible(&format!("(= {} #x{:02x})", term, lo), true);
+                    if keep && !same_path && lo > 0 && eng.feasible(&format!("(bvult {} #x{:02x})", term, lo), true) {
+                        keep = false;
+                        lo = 0;
+                    } else if !keep && !same_path {
+                        lo = 0;
+                    }
+                    if !keep {
+                        let mut hi = 255u16;
+                        while lo < hi {
+                            let mid = (lo + hi) / 2;
+                            if eng.feasible(&format!("(and (bvuge {} #x{:02x}) (bvule {} #x{:02x}))", term, lo, term, mid), true) {
+                                hi = mid;
+                            } else {
+                                lo = mid + 1;
+                            }
+                        }
+                    }
+                    eng.send(&format!("(push)\n(assert (= {} #x{:02x}))\n", term, lo));
+                    pushed += 1;
+                    out.push(lo as u8);
+                }
+            }
+        }
+        for _ in 0..pushed {
+            eng.send("(pop)\n");
+        }
+        eng.rep_cache = Some((key, out.clone()));
+        out
     })
 }
 
